@@ -93,7 +93,49 @@ class Check:
                 if old is not None:
                     log(f"Gen/{g}.lean changed - theorems depending on it will be re-checked")
                 open(dst, "w").write(new)
+                if g == "Kernels":
+                    self.kernels_safety_net(tmp, dst)
         return ok
+
+    def kernels_safety_net(self, tmp, dst):
+        """The translated module must elaborate.  If the current source makes the translator emit a definition
+        that Lean rejects (a translator limitation, not a property violation), the offending functions are
+        excluded (VERIF_XLATE_EXCLUDE, inherited by the harness runs) and the module is regenerated, so that only
+        the tie theorems which need those definitions fail - not every property that imports the module.
+        Called with the lake lock held."""
+        excl = [e for e in os.environ.get("VERIF_XLATE_EXCLUDE", "").split(",") if e]
+        for attempt in range(4):
+            rc, out = run(["lake", "build", "M3d.Gen.Kernels"], cwd=self.lean, timeout=1800)
+            if rc == 0:
+                return
+            src = open(dst).read().splitlines()
+            bad = set()
+            for m in re.finditer(r"Kernels\.lean:(\d+):\d+", out):
+                ln = min(int(m.group(1)), len(src)) - 1
+                # a table line names its root; otherwise walk up to the doc comment of the enclosing definition
+                mt = re.match(r'\s*\("([^"]+)",', src[ln])
+                if mt:
+                    bad.add(mt.group(1))
+                    continue
+                for k in range(ln, -1, -1):
+                    md = re.match(r"^/-- `([^`]+)` \(", src[k])
+                    if md:
+                        bad.add(md.group(1))
+                        break
+            bad -= set(excl)
+            if not bad:
+                self.notes.append("Gen/Kernels.lean does not elaborate and the failing definitions could not be identified: " + out[-1500:])
+                return
+            excl += sorted(bad)
+            os.environ["VERIF_XLATE_EXCLUDE"] = ",".join(excl)
+            self.notes.append("generated definitions that did not elaborate were excluded from Gen/Kernels.lean (translator limitation on the current source): " + ", ".join(sorted(bad)))
+            log("Gen/Kernels.lean: excluding " + ", ".join(sorted(bad)))
+            rc2, out2 = run([os.path.join(self.harness, "bin", self.pid.lower()), "-gen", "Kernels", "-repo", REPO,
+                             "-out", os.path.join(tmp, "Kernels.lean")], cwd=self.harness, env=GOENV, timeout=600)
+            if rc2 != 0:
+                self.notes.append("regenerating Gen/Kernels.lean with exclusions failed: " + out2[-1000:])
+                return
+            open(dst, "w").write(open(os.path.join(tmp, "Kernels.lean")).read())
 
     def lake_build(self, targets, locked=False):
         cmd = ["lake", "build"] + targets
